@@ -45,12 +45,12 @@ def main():
     mod = importlib.import_module(f"vf.props.{a.prop}")
     if a.replay:
         return replay(mod, a)
-    rep = core.Report(a.prop, a.tier, a.seed, mod.LEVEL)
+    rep = core.Report(a.prop, a.tier, a.seed, level_of(a.prop, mod))
     rep.assumptions += list(getattr(mod, "ASSUMPTIONS", []))
     rep.trusted += list(getattr(mod, "TRUSTED", []))
-    if hasattr(mod, "e1") and not a.no_e1:
+    if not a.no_e1:
         try:
-            mod.e1(rep, a.tier)
+            run_e1(rep, a.prop, mod, a.tier)
         except Exception:
             import traceback
 
@@ -66,6 +66,29 @@ def main():
                                                         "detail": {k: v for k, v in f.items() if k not in ("case", "key", "what", "group")}})
     rc = rep.finish(explanation=getattr(mod, "EXPLANATION", ""), extra_cov=getattr(mod, "EXTRA_COV", None))
     return rc
+
+
+def level_of(prop, mod):
+    try:
+        meta = json.load(open(core.VERIF / "tools" / "manifest_meta.json"))
+        return meta[prop]["category"]
+    except Exception:
+        return getattr(mod, "LEVEL", "exploration")
+
+
+def run_e1(rep, prop, mod, tier):
+    from vf.props.e1_targets import E1, E1_ASSUMPTIONS, E1_TRUSTED
+
+    if hasattr(mod, "e1"):
+        return mod.e1(rep, tier)
+    if prop in E1:
+        from contracts.common import CLASSES
+        from vf.pyvc import run as e1run
+
+        mods, quals = E1[prop]
+        rep.trusted += E1_TRUSTED
+        rep.assumptions += E1_ASSUMPTIONS
+        e1run.verify_functions(rep, mods, quals, CLASSES)
 
 
 def replay(mod, a):
@@ -86,8 +109,8 @@ def replay(mod, a):
         print("replay: unknown group", payload.get("group"))
         return 3
     if payload.get("obligation"):
-        rep = core.Report(a.prop, a.tier, a.seed, mod.LEVEL)
-        mod.e1(rep, a.tier)
+        rep = core.Report(a.prop, a.tier, a.seed, level_of(a.prop, mod))
+        run_e1(rep, a.prop, mod, a.tier)
         bad = [o for o in rep.obligations if o["name"] == payload["obligation"] and o["verdict"] != "discharged"]
         if bad:
             print(f"VIOLATION property={a.prop} replay={a.replay} obligation={payload['obligation']} verdict={bad[0]['verdict']}"
